@@ -5,6 +5,8 @@ cd /verif
 for d in seeded/*${1}*/; do
   id=$(basename $d)
   P=$(python3 -c "import json;print(json.load(open('$d/meta.json'))['property'])")
+  O=$(python3 -c "import json;print(json.load(open('$d/meta.json')).get('obsolete_after',''))")
+  if [ -n "$O" ]; then echo "$id OBSOLETE ($O)"; continue; fi
   S=$(mktemp -d /tmp/seedreg_XXXXXX)
   cp -r /repo/tenpy $S/tenpy
   if ! (cd $S && patch -p1 -s --no-backup-if-mismatch < /verif/$d/patch.diff >/dev/null 2>&1); then echo "$id PATCH-DOES-NOT-APPLY"; rm -rf $S; continue; fi
